@@ -42,7 +42,7 @@ struct Problem {
 	// data
 	std::vector<std::vector<unsigned>> idx; std::vector<double> z, w;
 };
-static void build_data(Problem& p, Rng& rng, bool increasing = false) {
+static void build_data(Problem& p, Rng& rng, bool increasing = false, double scale = 1.0) {
 	std::vector<int> g(p.nd); size_t rows = 1; for (int d = 0; d < p.nd; d++) { g[d] = (int)AX[p.axes[d]].xs.size(); rows *= g[d]; }
 	p.idx.assign(p.nd, {}); p.z.clear(); p.w.clear();
 	for (size_t r = 0; r < rows; r++) {
@@ -52,7 +52,7 @@ static void build_data(Problem& p, Rng& rng, bool increasing = false) {
 		for (int d = 0; d < p.nd; d++) p.idx[d].push_back(id[d]);
 		double zz = (double)((long)rng.below(11) - 5) + 0.25 * (double)rng.below(4);
 		if (increasing) { zz = 2.0; for (int d = 0; d < p.nd; d++) zz += 1.5 * AX[p.axes[d]].xs[id[d]] - 1.5 * AX[p.axes[d]].xs[0]; zz += 0.01 * (double)rng.below(3); }
-		p.z.push_back(zz); p.w.push_back(p.wp == 1 ? 1.0 : 1.0 + (double)((r * 3) % 5));
+		p.z.push_back(zz * scale); p.w.push_back(p.wp == 1 ? 1.0 : 1.0 + (double)((r * 3) % 5));
 	}
 }
 static void basis_row(const Problem& p, const std::vector<unsigned>& id, std::vector<std::pair<int, LD>>& out) {
@@ -107,7 +107,10 @@ int main(int argc, char** argv) {
 		for (auto v : q["axes"].ints()) p.axes.push_back((int)v); for (auto v : q["pens"].ints()) p.pens.push_back((int)v); for (auto v : q["lam"].ints()) p.lam.push_back((double)v);
 		p.dp = (int)q["data"].integer(); p.wp = (int)q["weights"].integer(); p.scalar = q["scalar"].b; p.ntot = 1;
 		for (int d = 0; d < p.nd; d++) { p.nspl.push_back((int)AX[p.axes[d]].t.size() - AX[p.axes[d]].n - 1); p.ntot *= p.nspl.back(); }
-		np++; build_data(p, rng, mono && np % 2 == 0);
+		// monotonic fits: a third of the problems with the data scaled by an exact power of two (the solvers' tolerances are
+		// absolute); for those only the ordering of the coefficients is judged, not the inactive-constraint clause
+		static const double SC[] = {1.0, 1.0, 1.0, 1.0 / 8192, 1.0, 1.0 / 8388608, 1.0, 1.0, 256.0};
+		np++; double scale = mono ? SC[np % 9] : 1.0; build_data(p, rng, mono && np % 2 == 0, scale);
 		std::vector<LD> N, r, cstar; normal_eq(p, N, r);
 		if (mode == "threads") {
 			for (int d = 0; d < p.nd; d++) { std::vector<float> c; bool ok = run_fit(p, d, false, false, false, c, rng); std::string bits; for (float v : c) bits += bits32(v); JW w; w.s("kind", "threads").i("pid", np).i("monodim", d).b("ok", ok).s("bits", bits); w.emit(out); }
@@ -154,10 +157,11 @@ int main(int argc, char** argv) {
 				inactive = true; for (int o = 0; o < outer && inactive; o++) for (int q = 0; q < inner && inactive; q++) for (int i = 0; i < m; i++) { size_t k = (size_t)(o * m + i) * inner + q; LD ai = cstar[k] - (i ? cstar[k - inner] : 0); if (!(ai > 1e-4L * cmax)) { inactive = false; break; } }
 				for (int i = 0; i < p.ntot; i++) errU = std::max(errU, fabsl(cc[i] - cstar[i]));
 				same_as_unconstrained = errU <= bound * 4 + 1e-4L * cmax * 0;
+				if (scale != 1.0) inactive = false;
 			}
 			acls += "]"; gcls += "]";
 			JW w; w.s("kind", "mono").i("pid", np).i("monodim", md).b("completed", ok).b("nondecreasing", nondecr).raw("ranks", rk.str()).raw("a", acls).raw("g", gcls).b("inactive", inactive).b("same_as_unconstrained", same_as_unconstrained)
-			     .d("errU", (double)errU).d("bound", (double)bound).d("cond", (double)cond).i("ndim", p.nd).raw("problem", line.substr(line.find("\"p\":") + 4, line.rfind('}') - line.find("\"p\":") - 4)); w.emit(out);
+			     .d("errU", (double)errU).d("bound", (double)bound).d("cond", (double)cond).i("ndim", p.nd).d("scale", scale).raw("problem", line.substr(line.find("\"p\":") + 4, line.rfind('}') - line.find("\"p\":") - 4)); w.emit(out);
 		}
 	}
 	fclose(out); printf("{\"problems\":%ld}\n", np); return 0;
